@@ -183,6 +183,10 @@ def run(prop, tier, seed, out):
                     raise Broken(what + ": " + crashed["stderr"][-600:])
                 scen_n += rep["scenarios"]
                 cancelled_n += rep["cancelled"]
+                if rep.get("oracle_undecided"):
+                    out.coverage["oracle_undecided"] = out.coverage.get("oracle_undecided", 0) + rep["oracle_undecided"]
+                    if rep["oracle_undecided"] * 10 > rep["scenarios"]:
+                        raise Broken("the C01/C02 oracle left %d of %d executions undecided" % (rep["oracle_undecided"], rep["scenarios"]))
                 for f in rep["failures"]:
                     if f["prop"] == prop:
                         out.violation(f["what"], f)
